@@ -73,6 +73,8 @@ func (s *scen) onHandler(c fox.Context) {
 	}
 	p.done = true
 	d, _ := fox.VerifCtxDump(c)
+	b.live[d.ID] = "the context serving the request"
+	defer delete(b.live, d.ID)
 	a, known := b.ctxAddr[d.ID]
 	if !known || d.ID != p.planted {
 		b.desync = "ServeHTTP used a context the harness did not prepare"
@@ -225,6 +227,12 @@ func (s *scen) doCloneWith(l *live, depth int) {
 	}
 	cw := l.c.CloneWith(w, r)
 	d, _ := fox.VerifCtxDump(cw)
+	if b.live[d.ID] != "" {
+		b.fail("CloneWith returned a context that is still in use as " + b.live[d.ID])
+		return
+	}
+	b.live[d.ID] = "an open CloneWith context"
+	defer delete(b.live, d.ID)
 	if d.ID != planted {
 		b.desync = "CloneWith used a context the harness did not prepare"
 		return
@@ -245,7 +253,7 @@ func (s *scen) doCloneWith(l *live, depth int) {
 // doLookup: manual Router.Lookup, from inside a handler (l != nil) or between requests
 func (s *scen) doLookup(l *live, depth int) {
 	b := s.b
-	kind := hx.Pick(b.rnd, []string{"direct", "direct", "tsr", "noroute", "hostfail"})
+	kind := hx.Pick(b.rnd, []string{"direct", "direct", "tsr", "noroute", "hostfail", "prefixmiss"})
 	p := s.plan(kind)
 	kind = normKind(kind, p)
 	r := b.newReq(p.method, p.path, "q="+p.tok+"&z=zz"+p.tok, p.tok, p.host)
@@ -267,6 +275,9 @@ func (s *scen) doLookup(l *live, depth int) {
 		b.oldRecs = append(b.oldRecs, w)
 	}
 	planted := b.prePlant(s.f)
+	if planted == 0 {
+		return
+	}
 	var rt *fox.Route
 	var cc fox.ContextCloser
 	var tsr bool
@@ -308,6 +319,12 @@ func (s *scen) doLookup(l *live, depth int) {
 		return
 	}
 	d, _ := fox.VerifCtxDump(cc)
+	if b.live[d.ID] != "" {
+		b.fail("Lookup returned a context that is still in use as " + b.live[d.ID])
+		return
+	}
+	b.live[d.ID] = "an open Lookup context"
+	defer delete(b.live, d.ID)
 	if d.ID != planted {
 		b.desync = "Lookup used a context the harness did not prepare"
 		cc.Close()
@@ -335,7 +352,7 @@ func (b *B) ctxAddrOf(id uintptr) int { return b.ctxAddr[id] }
 
 // normKind: the shape a planned request has once the oracle has spoken
 func normKind(kind string, p *pending) string {
-	if kind == "direct" || kind == "tsr" || kind == "hostfail" {
+	if kind == "direct" || kind == "tsr" || kind == "hostfail" || kind == "prefixmiss" {
 		switch {
 		case p.rt == nil:
 			return "noroute"
@@ -357,6 +374,9 @@ func (s *scen) request(kind string) {
 	p.r = b.newReq(p.method, p.path, "q="+p.tok+"&z=zz"+p.tok, p.tok, p.host)
 	p.hw = b.newHW(p.tok)
 	p.planted = b.prePlant(s.f)
+	if p.planted == 0 {
+		return
+	}
 	p.plantedTsr = b.lastPlantedTsr
 	s.cur = p
 	func() {
@@ -373,6 +393,35 @@ func (s *scen) request(kind string) {
 	b.oldReqs = append(b.oldReqs, p.r)
 	b.oldHWs = append(b.oldHWs, p.hw)
 	s.cur = nil
+}
+
+// probePool: pool discipline between requests. Objects obtained from the pool while others are held must be
+// distinct; the same object twice means it was Put twice (two later users would share it).
+func (s *scen) probePool() {
+	b := s.b
+	if b.panicked || b.desync != "" {
+		return
+	}
+	var held []fox.Context
+	seen := map[uintptr]bool{}
+	dup := false
+	for k := 0; k < 4; k++ {
+		c := fox.VerifPoolGet(s.f)
+		d, _ := fox.VerifCtxDump(c)
+		if seen[d.ID] {
+			dup = true
+			continue
+		}
+		seen[d.ID] = true
+		held = append(held, c)
+	}
+	for k := len(held) - 1; k >= 0; k-- {
+		fox.VerifPoolPut(held[k])
+	}
+	b.kinds["pool-probe"]++
+	if dup {
+		b.fail("pool probe: the same *cTx was obtained twice from the pool of the current tree without being returned in between (it was Put twice by an earlier request)")
+	}
 }
 
 // recheckClones: clones are inspected again after later requests reused the originals
